@@ -58,6 +58,18 @@ func c04Check(r *fw.R, m *wire.Msg) {
 	}
 	if len(d.Ptrs) > 0 {
 		r.Nontrivial()
+		// compression is transparent to the caller's buffer management too: PackBuffer with a buffer of any size
+		// around the compressed length gives the same octets as Pack (it allocates when the buffer does not do)
+		for _, n := range []int{0, len(c) - 1, len(c), len(c) + 1, len(c) + 2, len(c) + 4} {
+			if len(c) > 20000 && n != len(c)+1 {
+				continue
+			}
+			out, err := g.PackBuffer(make([]byte, n))
+			if err != nil || !bytes.Equal(out, c) {
+				r.Fail("packbuffer-differs", "PackBuffer(buffer of %d octets) = %d octets, err %v; Pack gives %d octets (Compress=true); %s", n, len(out), err, len(c), msgDesc(m))
+				break
+			}
+		}
 	}
 	for _, p := range d.Ptrs {
 		switch {
